@@ -1,13 +1,14 @@
 (* Driver of the extracted history-level model (coq/Engine/HistDefs.v run with the command function
    hcmd of coq/Engine/HistRun.v; extracted by coq/ExtractHist.v into histmodel.ml).
    Usage: hist_run hist          one history per input line, one result line per history
-          hist_run hist-direct   the same through the extracted [step_run] / [is_clean] as they are (slow)
+          hist_run hist-direct   the same without the memo table (slow)
           hist_run histd         histories of the recorded-deps model (HistDepsDefs.v), see the end of this comment
 
    [build], [apply_step], [clean_of] of HistDefs.v take the command function as a parameter.  `hist` passes a
    MEMOIZED [hcmd g] (a table from (statement, command hash, snapshot, output) to the hash value: the 64-bit arithmetic on
    binary positives dominates the run time, and [clean_of] recomputes the content of every ancestor of every node at every
-   build); `hist-direct` calls [step_run] and [is_clean], which have [hcmd g] built in.  The two print the same lines
+   build); `hist-direct` calls [build_f (hcmd g)], [step_run] (for the other steps) and [is_clean], without the table.
+   The two print the same lines
    (tools/histmodel.py compares them on a sample of every run).
 
    Input line (space-separated key=value fields, all numbers decimal):
@@ -29,11 +30,20 @@
         f<t>+<t>..@<e>:<kind>/<e>:<kind>..   an invocation -j1 -k1 in which commands may fail (HistFailDefs.buildF):
                    statement e fails when it is started; kind = u (outputs left alone) | d (outputs removed) |
                    w<c> (every output o rewritten with content c + o, fresh ticks)
+        k<t>+<t>..@<pos>:<at>   an invocation KILLED at the crash point (HistCrashDefs.buildK): pos = statement number (>= the
+                   number of statements: after the last one); at = b (KBefore) | l (KLocked: lock file written) |
+                   w<k> (the first k outputs written completely, with the contents of a successful run) |
+                   g<k>:<c> (the first k outputs half written: content c + o) | j<n> (command finished, n log entries written)
+        i<t>+<t>..@<pos>:<k>:<c>   an invocation INTERRUPTED while statement pos runs, after k output writes (content c + o);
+                   Builder::Cleanup removes what was modified (HistCrashDefs.buildI)
 
    Output line:
      wf=<0|1> frag=<0|1> topo=<0|1> nip=<0|1> hok=<0|1>      wf_b, frag_AB, topo_ordered, no_inputless_phony, hist_ok
      then for every Build / dry-run / failing-build step, in order:
-      | B ok=<0|1> ts=<0|1> run=<e>+<e>..  nodes=<x><q>:<content>:<mtime>:<loghash>:<logmtime>,...
+      | B ok=<0|1> ts=<0|1> run=<e>+<e>.. oldok=<0|1> old=<e>+<e>.. nodes=<x><q>:<content>:<mtime>:<loghash>:<logmtime>,...
+        A Build step is run by HistFaithful.build_f (HistDepsFaithful.dbuild_f in `histd`): the loop that follows
+        Plan::CleanNode.  oldok / old = acceptance and commands of HistDefs.build (HistDepsDefs.dbuild) from the SAME state:
+        they differ from ok / run exactly where [dirty_now]'s re-scan re-runs what CleanNode prunes.
         ok   the model accepted the build (scan = ScanOk); 0 = refused, nothing runs, the state is unchanged
         run  the statements whose command ran in this build, oldest first ("-" = none)   [h_trace delta]
         nodes, for node 0 .. N-1 AFTER the build: x = the file exists, q = content_of = clean_of (the C01 predicate),
@@ -46,6 +56,10 @@
       | F ok=<0|1> failed=<0|1> fe=<e> ts=<0|1> run=<e>+<e>.. nodes=...   failing build: ok = accepted by the scan,
              failed = exit flag "subcommand failed", fe = the statement that failed ("-" = none),
              run = the commands STARTED, oldest first (the failing one is the last)
+      | K ok=<0|1> hit=<0|1> ts= run=.. nodes=..   killed invocation (HistCrashDefs.buildK_full): hit = the kill fell into a
+             statement that was started (otherwise between two statements / after the last); run = commands started
+      | I ok=<0|1> hit=<0|1> exit=<130|0|1> ts= run=.. nodes=..   interrupted invocation (HistCrashDefs.buildI_full)
+        (tss on B lines = HistCrashDefs.taint_safe_stmt, the weaker hypothesis of recovery)
 
    `histd` (HistDepsDefs.v, fragment ABD): the same input line plus
      H=<e>:<n>+<n>..;<e>:..     the hidden reads of statement e (what its command reads besides its non-order-only manifest
@@ -101,6 +115,8 @@ type xstep =
   | P of hstep
   | Dry of nat list
   | FB of nat list * (int * char * int) list     (* targets, (statement, kind, content base) *)
+  | KB of nat list * int * char * int * int      (* killed: targets, position, point b|l|w|g|j, count, content base *)
+  | IB of nat list * int * int * int             (* interrupted: targets, position, writes, content base *)
 
 let parse_step (t : string) : xstep =
   let two s = match String.split_on_char ':' s with
@@ -119,6 +135,23 @@ let parse_step (t : string) : xstep =
              (int_of_string e, k.[0], if k.[0] = 'w' then int_of_string (String.sub k 1 (String.length k - 1)) else 0)
            | _ -> failwith ("bad fault " ^ f)) (items '/' fs))
      | [ts] -> FB (nids '+' ts, [])
+     | _ -> failwith ("bad step " ^ t))
+  | 'k' ->
+    (match String.split_on_char '@' (rest t) with
+     | [ts; cp] ->
+       (match String.split_on_char ':' cp with
+        | pos :: a :: more when a <> "" ->
+          let cnt = if String.length a > 1 then int_of_string (String.sub a 1 (String.length a - 1)) else 0 in
+          let base = match more with [c] -> int_of_string c | _ -> 0 in
+          KB (nids '+' ts, int_of_string pos, a.[0], cnt, base)
+        | _ -> failwith ("bad crash point " ^ cp))
+     | _ -> failwith ("bad step " ^ t))
+  | 'i' ->
+    (match String.split_on_char '@' (rest t) with
+     | [ts; ip] ->
+       (match String.split_on_char ':' ip with
+        | [pos; k; c] -> IB (nids '+' ts, int_of_string pos, int_of_string k, int_of_string c)
+        | _ -> failwith ("bad interrupt point " ^ ip))
      | _ -> failwith ("bad step " ^ t))
   | _ -> failwith ("bad step " ^ t)
 
@@ -172,14 +205,17 @@ let hist_line (direct : bool) (l : string) : string =
     match Hashtbl.find_opt memo k with
     | Some v -> v
     | None -> let v = hcmd g e h sn o in Hashtbl.add memo k v; v in
+  let cmdf = if direct then hcmd g else mcmd in
+  (* a Build step is HistFaithful.build_f (Plan::CleanNode followed literally); HistDefs.build is run next to it from the
+     same state and only its commands are reported (old=) *)
   let step st s =
-    if direct then step_run g st s
-    else match s with
-      | Build t -> (match build mcmd g st t with Some st' -> (true, st') | None -> (false, st))
-      | _ -> (true, apply_step mcmd g st s) in
+    match s with
+    | Build t -> (match build_f cmdf g st t with Some st' -> (true, st') | None -> (false, st))
+    | _ -> if direct then step_run g st s else (true, apply_step mcmd g st s) in
+  let old_build st t = match build cmdf g st t with
+    | Some st' -> (true, trace_delta st st') | None -> (false, []) in
   let is_clean g st n =
     if direct then is_clean g st n else opt_content_eqb (content_of st n) (clean_of mcmd g st n) in
-  let cmdf = if direct then hcmd g else mcmd in
   let show_nodes st' =
     js "," (List.map (fun n ->
         let fl = match st'.h_disk n with
@@ -194,11 +230,13 @@ let hist_line (direct : bool) (l : string) : string =
       match s with
       | P hs ->
         let ts = match hs with Build _ -> taint_safe g !st | _ -> true in
+        let tss = match hs with Build _ -> taint_safe_stmt g !st | _ -> true in
         let (ok, st') = step !st hs in
         (match hs with
-         | Build _ ->
-           Buffer.add_string buf (Printf.sprintf " | B ok=%s ts=%s run=%s nodes=%s" (b ok) (b ts)
-                                    (es (trace_delta !st st')) (show_nodes st'))
+         | Build t ->
+           let (ook, orun) = old_build !st t in
+           Buffer.add_string buf (Printf.sprintf " | B ok=%s ts=%s tss=%s run=%s oldok=%s old=%s nodes=%s" (b ok) (b ts) (b tss)
+                                    (es (trace_delta !st st')) (b ook) (es orun) (show_nodes st'))
          | _ -> ());
         st := st'
       | Dry t ->
@@ -220,7 +258,37 @@ let hist_line (direct : bool) (l : string) : string =
                                     (es (trace_delta !st st')) (show_nodes st'));
            st := st'
          | None ->
-           Buffer.add_string buf (Printf.sprintf " | F ok=0 failed=0 fe=- ts=%s run=- nodes=%s" (b ts) (show_nodes !st))))
+           Buffer.add_string buf (Printf.sprintf " | F ok=0 failed=0 fe=- ts=%s run=- nodes=%s" (b ts) (show_nodes !st)))
+      | KB (t, pos, a, cnt, base) ->
+        let ts = taint_safe g !st in
+        let mk f = { cp_pos = nat_of_int pos;
+                     cp_at = (match a with
+                         | 'b' -> KBefore | 'l' -> KLocked | 'j' -> KLogged (nat_of_int cnt)
+                         | 'w' | 'g' -> KWrote (nat_of_int cnt, f)
+                         | _ -> failwith "bad crash point kind") } in
+        let garbage o = n_of_int (base + int_of_nat o) in
+        (* 'w': the killed command had written its first outputs COMPLETELY (the harness replaces files atomically): the
+           contents are those of a successful run, i.e. cmd e h (reads stk e) for the state stk the statement is started in,
+           which buildK_full itself reports (first pass with placeholder contents) *)
+        let f = if a <> 'w' then garbage else
+            match buildK_full cmdf g !st t (mk garbage) with
+            | Some (_, Some ((e, _), stk)) -> let sn = reads g stk e in let h = stk.h_hash e in (fun o -> cmdf e h sn o)
+            | _ -> garbage in
+        (match buildK_full cmdf g !st t (mk f) with
+         | Some (st', r) ->
+           Buffer.add_string buf (Printf.sprintf " | K ok=1 hit=%s ts=%s run=%s nodes=%s" (b (r <> None)) (b ts)
+                                    (es (trace_delta !st st')) (show_nodes st'));
+           st := st'
+         | None -> Buffer.add_string buf (Printf.sprintf " | K ok=0 hit=0 ts=%s run=- nodes=%s" (b ts) (show_nodes !st)))
+      | IB (t, pos, k, base) ->
+        let ts = taint_safe g !st in
+        let ip = { ip_pos = nat_of_int pos; ip_k = nat_of_int k; ip_f = (fun o -> n_of_int (base + int_of_nat o)) } in
+        (match buildI_full cmdf g !st t ip with
+         | Some (st', r) ->
+           Buffer.add_string buf (Printf.sprintf " | I ok=1 hit=%s exit=%d ts=%s run=%s nodes=%s" (b (r <> None))
+                                    (if r <> None then 130 else 0) (b ts) (es (trace_delta !st st')) (show_nodes st'));
+           st := st'
+         | None -> Buffer.add_string buf (Printf.sprintf " | I ok=0 hit=0 exit=1 ts=%s run=- nodes=%s" (b ts) (show_nodes !st))))
     steps;
   Buffer.contents buf
 
@@ -277,11 +345,14 @@ let histd_line (l : string) : string =
       match s with
       | None -> ds := List.fold_left drop_deps !ds nodes
       | Some (Build t) ->
-        (match dbuild mcmd g hid !ds t with
+        let (ook, orun) = match dbuild mcmd g hid !ds t with
+          | Some ds' -> (true, trace_delta !ds.d_h ds'.d_h) | None -> (false, []) in
+        (match dbuild_f mcmd g hid !ds t with
          | Some ds' ->
-           Buffer.add_string buf (Printf.sprintf " | B ok=1 ts=1 run=%s nodes=%s" (es (trace_delta !ds.d_h ds'.d_h)) (show ds'));
+           Buffer.add_string buf (Printf.sprintf " | B ok=1 ts=1 run=%s oldok=%s old=%s nodes=%s" (es (trace_delta !ds.d_h ds'.d_h))
+                                    (b ook) (es orun) (show ds'));
            ds := ds'
-         | None -> Buffer.add_string buf (Printf.sprintf " | B ok=0 ts=1 run=- nodes=%s" (show !ds)))
+         | None -> Buffer.add_string buf (Printf.sprintf " | B ok=0 ts=1 run=- oldok=%s old=%s nodes=%s" (b ook) (es orun) (show !ds)))
       | Some s -> ds := dapply_step mcmd g hid !ds s) xsteps;
   Buffer.contents buf
 
